@@ -10,7 +10,7 @@ use serde_json::json;
 
 /// Every other tile first (a third of the rest temporarily bound to their left neighbour's bytes, so that
 /// the saved archive holds runs), save, reopen, then every remaining tile with its final bytes.
-fn two_sessions(l: &Logical, rng: &mut Rng) -> std::io::Result<Vec<u8>> {
+pub fn two_sessions(l: &Logical, rng: &mut Rng) -> std::io::Result<Vec<u8>> {
     let mut pm = PMTiles::new(gen::ttype(l.tile_type), gen::comp(l.tile_compression));
     l.apply_settings(&mut pm);
     let ids: Vec<u64> = l.tiles.keys().copied().collect();
@@ -28,6 +28,18 @@ fn two_sessions(l: &Logical, rng: &mut Rng) -> std::io::Result<Vec<u8>> {
     let bytes = write_sync(pm)?;
     let mut pm = PMTiles::from_bytes(bytes)?;
     l.apply_settings(&mut pm);
+    // some of the reader-backed tiles are looked up first; the bytes of one of them are then bound to a temporary id
+    // that is removed again (what a lookup leaves behind in the store must survive that)
+    for id in ids.iter().step_by(4).take(50) {
+        let _ = pm.get_tile_by_id(*id)?;
+    }
+    if let (Some(first), Some(last)) = (ids.first(), ids.last()) {
+        let tmp = last.wrapping_add(7);
+        if !l.tiles.contains_key(&tmp) {
+            pm.add_tile(tmp, l.tiles[first].as_ref().clone())?;
+            pm.remove_tile(tmp);
+        }
+    }
     for id in later {
         pm.add_tile(id, l.tiles[&id].as_ref().clone())?;
     }
@@ -162,8 +174,16 @@ pub fn run(ctx: &mut Ctx) {
             continue;
         }
         ctx.begin(i);
-        let l = logical_for(ctx, "c01", i);
+        let mut l = logical_for(ctx, "c01", i);
         let mut rng = ctx.rng("c01.probe", i);
+        if (32..=35).contains(&(i % 80)) {
+            // metadata above 1 MiB that compresses by far more than 1000:1 (one per codec in every 80 cases)
+            let n = rng.usize(1_100_000, 2_500_000);
+            let ch = *rng.pick(&['a', ' ', '0', 'é']);
+            l.meta.insert(String::from("padding"), serde_json::Value::String(std::iter::repeat(ch).take(n).collect()));
+            l.class.push_str("/redundant-metadata");
+            ctx.count("archives_with_redundant_metadata_above_1_mib");
+        }
         let mat = l.describe();
         let asyncw = i % 5 == 4;
         let api = if asyncw { "PMTiles::to_async_writer" } else { "PMTiles::to_writer" };
